@@ -386,6 +386,14 @@ class StmtMixin:
         t = ast.unparse(s.items[0].context_expr)
         if "catch_warnings" in t:
             return self.exec_block(s.body, st)
+        if hasattr(self, "glue") and self.glue():
+            # orchestration code: the context manager is an opaque object (its construction is an event of the trace), bound to
+            # the `as` name; __enter__/__exit__ are not modelled
+            for it in s.items:
+                v = self.eval(it.context_expr, st)
+                if it.optional_vars is not None:
+                    self.assign_target(it.optional_vars, v, st, s)
+            return self.exec_block(s.body, st)
         raise Unsupported("with %s (line %d)" % (t, s.lineno))
 
     def s_Try(self, s, st):
